@@ -4,6 +4,8 @@ HARNESSES = {
     "lr_replay": (["plain", "asan"], None),
     "model_run": (["plain", "asan"], None),
     "replay_range": (["asan"], None),
+    "record": (["plain", "asan"], None),
+    "replay_cb": (["asan"], None),
 }
 def build_all():
     for name, (variants, extra) in HARNESSES.items():
